@@ -656,12 +656,13 @@ func c06Case(in c06In) Case {
 			for _, e := range in.Tree {
 				names[e.Path] = true
 			}
+			named, matching := false, false
 			for _, e := range in.Tree {
 				base := e.Path[strings.LastIndexByte(e.Path, '/')+1:]
 				if !strings.ContainsAny(base, "*?[\\") {
 					continue
 				}
-				add("pattern-named-entry-in-tree", false)
+				named = true
 				under := false
 				for _, a := range in.Args {
 					if strings.HasPrefix(e.Path, strings.TrimSuffix(a, "/")+"/") {
@@ -669,9 +670,14 @@ func c06Case(in c06In) Case {
 					}
 				}
 				if ms, err := filepath.Glob(filepath.Join(root, e.Path)); under && (err != nil || len(ms) != 1 || ms[0] != filepath.Join(root, e.Path)) {
-					add("walked-name-is-a-pattern-matching-a-sibling", true)
+					matching = true
 				}
-				break
+			}
+			if named {
+				add("pattern-named-entry-in-tree", false)
+			}
+			if matching {
+				add("walked-name-is-a-pattern-matching-a-sibling", true)
 			}
 		}
 		if o.badPat {
